@@ -530,9 +530,10 @@ package larking
 //@ func lexVariable serves C16 C09
 //@   returns (err)
 //@   requires LexInv(l)
-//@   requires TOk(l) && St(l, l.len) == 2
+//@   requires TOk(l) && St(l, l.len) == 2 && !l.inVariable
 //@   ensures [grammar C16] err == nil ==> TOk(l) && St(l, l.len) == 3
-//@   modifies F$lexer.pos, F$lexer.width, F$lexer.len, F$lexer.start, E$token, G$gfa.st
+//@   ensures [flag C16] !l.inVariable
+//@   modifies F$lexer.pos, F$lexer.width, F$lexer.len, F$lexer.start, E$token, G$gfa.st, F$lexer.inVariable
 //@   decreases 3 * LexRest(l)
 //@   ensures [inv] LexInv(l) && l.pos >= old(l.pos)
 //@   ensures [progress] err == nil ==> l.pos > old(l.pos) && l.start == l.pos
@@ -541,9 +542,10 @@ package larking
 //@   returns (err)
 //@   witness verifWitnessNestedVariable
 //@   requires LexInv(l) && l.start == l.pos
-//@   requires TOk(l) && (St(l, l.len) == 2 || St(l, l.len) == 7)
+//@   requires TOk(l) && (St(l, l.len) == 2 || St(l, l.len) == 7) && (l.inVariable <==> St(l, l.len) == 7)
 //@   ensures [grammar C16] err == nil ==> TOk(l) && St(l, l.len) == old(St(l, l.len)) + 1
-//@   modifies F$lexer.pos, F$lexer.width, F$lexer.len, F$lexer.start, E$token, G$gfa.st
+//@   ensures [flag C16] l.inVariable == old(l.inVariable)
+//@   modifies F$lexer.pos, F$lexer.width, F$lexer.len, F$lexer.start, E$token, G$gfa.st, F$lexer.inVariable
 //@   decreases 3 * LexRest(l) + 1
 //@   ensures [inv] LexInv(l) && l.pos >= old(l.pos)
 //@   ensures [progress] err == nil ==> l.pos > old(l.pos) && l.start == l.pos
@@ -554,11 +556,12 @@ package larking
 //@ func lexSegments serves C16 C09
 //@   returns (err)
 //@   requires LexInv(l) && l.start == l.pos
-//@   requires TOk(l) && (St(l, l.len) == 2 || St(l, l.len) == 7)
+//@   requires TOk(l) && (St(l, l.len) == 2 || St(l, l.len) == 7) && (l.inVariable <==> St(l, l.len) == 7)
 //@   ghost s0 = St(l, l.len)
 //@   ensures [grammar C16] err == nil ==> TOk(l) && St(l, l.len) == s0 + 1
-//@   loop 1 invariant TOk(l) && St(l, l.len) == s0
-//@   modifies F$lexer.pos, F$lexer.width, F$lexer.len, F$lexer.start, E$token, G$gfa.st
+//@   ensures [flag C16] l.inVariable == old(l.inVariable)
+//@   loop 1 invariant TOk(l) && St(l, l.len) == s0 && l.inVariable == old(l.inVariable)
+//@   modifies F$lexer.pos, F$lexer.width, F$lexer.len, F$lexer.start, E$token, G$gfa.st, F$lexer.inVariable
 //@   decreases 3 * LexRest(l) + 2
 //@   ensures [inv] LexInv(l) && l.pos >= old(l.pos)
 //@   ensures [progress] err == nil ==> l.pos > old(l.pos)
@@ -567,10 +570,10 @@ package larking
 
 //@ func lexTemplate serves C16 C09
 //@   returns (err)
-//@   requires LexInv(l) && l.start == 0 && l.pos == 0 && l.len == 0
+//@   requires LexInv(l) && l.start == 0 && l.pos == 0 && l.len == 0 && !l.inVariable
 //@   ghost at "if r := l.next(); r != '/' {" set gfa(l, "st", 0) = 1
 //@   ensures [grammar C16] err == nil ==> TOk(l) && St(l, l.len) == 11
-//@   modifies F$lexer.pos, F$lexer.width, F$lexer.len, F$lexer.start, E$token, G$gfa.st
+//@   modifies F$lexer.pos, F$lexer.width, F$lexer.len, F$lexer.start, E$token, G$gfa.st, F$lexer.inVariable
 //@   deadcode "return err #1"
 //@   ensures [inv] LexInv(l)
 
